@@ -78,6 +78,13 @@ def c06_batches(tier):
             bs.append(B("conc-swarm-%s-%s" % (be, var), "conc", be, var, cnt, spec="swarm:16", specpool=4, nkeys=2, maxw=8, weight=30 if q else 300))
         bs.append(B("conc-wide-%s-optim" % be, "conc", be, "optim", 12 if q else 400, spec="swarm:4", specpool=2, nkeys=1, maxw=64, maxops=2, w=64 if q else 48,
                     phist=0.2, weight=30 if q else 300, det_count=2))
+    # thread create/exit histories: the worker's main thread never touches the library, set-up runs in a thread that exits before
+    # the tasks start, tasks exit at different times while others keep evaluating (plain and ASan builds)
+    for be in BACKENDS:
+        bs.append(B("conc-threads-%s-optim" % be, "conc", be, "optim", 40 if q else 1500, spec="swarm:8", specpool=2, nkeys=1, maxw=6, threadrun=1, psetup=1.0,
+                    weight=20 if q else 200))
+        bs.append(B("conc-threads-%s-optim-asan" % be, "conc", be, "optim-asan", 10 if q else 300, spec="swarm:6", specpool=2, nkeys=1, maxw=5, threadrun=1, psetup=1.0,
+                    weight=20 if q else 200, max_procs=2))
     # auxiliary: free-running threads under ThreadSanitizer (races inside straight-line code cannot be scheduled at interposed calls)
     for be in (["spqlios-fma", "nayuki-portable", "fftw"] if q else BACKENDS):
         bs.append(B("stress-tsan-%s" % be, "stress", be, "optim-tsan", 4 if q else 200, spec="swarm:6", specpool=2, nkeys=1, maxw=8, weight=25 if q else 250,
@@ -227,10 +234,6 @@ def c07_judge(tier, batches, results, cov, judged):
         kind = parts[1]
         if kind in ("lwe", "tlwe", "tgsw"):
             alpha = ALPHAS7[int(parts[2])]
-        elif kind == "gate":
-            alpha = {"P128": 2.0 ** -15, "P80": 2.44e-5}.get(parts[2])
-            if alpha is None:
-                continue   # swarm sets: mixture of noise levels (already normalised per sample, judged below with alpha unknown -> skip discretisation terms)
         else:
             alpha = float(".".join(parts[3:]))
         if n < 5000 or alpha <= 0:
